@@ -263,6 +263,13 @@ def orbit_case(ctx, rng, k, long_stepped=False):
         # the pass: absent lines are recomputed at their nominal place in the pass, wherever the pass might be cut into pieces
         fmt, shape = "podGac", "long-stepped"
         num, den = timesgen.period(fmt)
+    corpus = (not long_stepped) and k in (0, 1)
+    if corpus:
+        # runs first: a gap-free pass over a clock reset (error negative on the first lines, positive on the last): every line the
+        # correction needs is in the file and NOTHING is to be recomputed - with the real recomputation routine in place (the plan
+        # stream replaces it), the correction must still be carried out
+        fmt, shape = ["podGac", "podLac"][k], "dense"
+        num, den = timesgen.period(fmt)
     pts = 23.5 + 40.0 * np.arange(51) if fmt == "podGac" else 24.0 + 40.0 * np.arange(51)
     if shape == "long-stepped":
         nums = [x for x in range(1, 4701) if x not in (4400, 4401, 4402, 4600, 4601, 4602)]
@@ -284,10 +291,14 @@ def orbit_case(ctx, rng, k, long_stepped=False):
     use_table = rng.random() < 0.4
     if shape == "long-stepped":
         use_table = True
+    if corpus:
+        use_table = False
     if use_table:
         kind, offsets, tu, te = "shipped-table(0.70)", None, None, None
     else:
         kind, tu, te = error_profile(rng, start, start + int(offs[-1]), num / den / 1000.0)
+        if corpus:
+            kind, tu, te = "sign-change", [start, start + int(offs[-1])], ["-0.80", "0.90"]
         offsets = Offsets(tu, te)
     payload = {"fmt": fmt, "nums": nums, "start": start, "profile": kind, "table_t": tu, "table_e": te, "stream": "orbit",
                "shape": shape}
